@@ -53,10 +53,14 @@ EXPLANATION = (
     "term, factor_denom groups by denominator): identical, negated, numbers, renamed/crossed contracted indices, same tensors "
     "with another / a missing / a squared denominator, other tensors, exchanged itmd or target indices: the result is +1/-1 "
     "exactly when remainder = +-reference in value with target and itmd indices fixed (both remainders get exactly these "
-    "fixed indices), None otherwise; vanishing remainders are refused. R13d/R13g/R13h/R08a/R19c (owned elsewhere): expansion skeleton, reduce_expr bookkeeping, fraction "
+    "fixed indices), None otherwise; vanishing remainders are refused. R11k: _compare_terms evaluated on concrete bracket worlds "
+    "(term bracket powers 1..3 against intermediate powers 1..2, two itmd brackets, several ERI variants, missing partner, wrong "
+    "length, invalid substitution, no denominator): every variant schedules each matching term bracket for cancellation as often "
+    "as the INTERMEDIATE holds it (the factored term keeps power term - itmd), one term bracket per itmd bracket, ERI data handed "
+    "through, None without a complete assignment. R13d/R13g/R13h/R08a/R19c (owned elsewhere): expansion skeleton, reduce_expr bookkeeping, fraction "
     "cancellation, ordered substitutions, registry look-ups by default names.")
 ASSUMPTIONS = [
-    "the matching logic itself (_compare_terms, _compare_remainder, _map_on_other_terms, minimize_tensor_indices, the search in "
+    "the matching logic itself (_compare_eri_parts, _map_on_other_terms, minimize_tensor_indices, the search in "
     "LongItmdVariants.get_complete_variant/get_mixed_pref_variant, factor_denom) is a runtime statement and not decided; the "
     "rules decide that whatever these return is used consistently and conservatively",
     "the value-preserving nature of EriOrbenergy(term).canonicalize_sign(), .expand(), Expr(...) and term.cancel_*() is assumed "
@@ -2360,6 +2364,189 @@ def r11j(ctx):
                   f"_compare_remainder: {tag} gives {outs[:2]}", key=f"remainder guard {tag}")
 
 
+# ---------------------------------------------------------------------------
+# R11k: _compare_terms - the denominator brackets scheduled for cancellation
+
+
+class BracketWorld:
+    """orbital-energy brackets as concrete values (sorted signed index names): ``subs`` renames, ``a - b`` vanishes iff
+    the values agree; a bracket object is an Expr (exponent 1) or a polynom (base, exponent)"""
+
+    def __init__(self):
+        self.values = {}
+
+    def value(self, key):
+        key = tuple(sorted(key))
+        if key not in self.values:
+            from ..symex import Ext
+            o = Obj(None, "NZ#bracket" + "".join(key))
+            o.attrs["_key"] = key
+
+            def subs(sx, a, kw, key=key):
+                mp = a[0] if a and isinstance(a[0], dict) else dict(a[0]) if a else {}
+                if mp.get("$invalid"):
+                    return Ext("S.Zero")
+                return self.value(tuple(x[0] + mp.get(x[1:], x[1:]) for x in key))
+
+            def binop(sx, op, left, right, node):
+                if isinstance(op, ast.Sub) and isinstance(left, Obj) and isinstance(right, Obj) and "_key" in left.attrs and "_key" in right.attrs:
+                    return Ext("S.Zero") if left.attrs["_key"] == right.attrs["_key"] else Obj(None, "NZ#difference")
+                return NotImplemented
+            o.attrs.update(subs=subs)
+            o.attrs["$binop"] = binop
+            self.values[key] = o
+        return self.values[key]
+
+    def bracket(self, tag, key, exponent, as_expr=None):
+        v = self.value(key)
+        if as_expr if as_expr is not None else exponent == 1:
+            return Obj("expr_container:Expr", tag, sympy=v, _len=len(key))
+        return Obj("expr_container:Polynom", tag, base=v, base_and_exponent=(v, exponent), exponent=exponent, _len=len(key))
+
+    @staticmethod
+    def oracle(sx, atom):
+        if atom.op == "cmp" and atom.args[0] in ("is", "=="):
+            names = [str(x.args[0]) for x in atom.args[1:] if isinstance(x, T) and x.op == "sym"]
+            if len(names) == 2 and any(n_.startswith("NZ#") for n_ in names):
+                return False
+        return None
+
+
+def denominator_scenarios():
+    """name -> (term brackets [(key, exponent)], itmd brackets [(key over itmd names, exponent)], eri variants [(eri_i, sub)])"""
+    B = lambda *xs: tuple(xs)
+    D1 = B("+a", "+b", "-i", "-j")            # the t2_1 bracket on the itmd's own names
+    to_mnef = {"i": "m", "j": "n", "a": "e", "b": "f"}
+    T1 = B("+e", "+f", "-m", "-n")
+    T2 = B("+c", "+d", "-k", "-l")
+    S1 = B("+e", "-m")
+    return {
+        "same power": ([(T1, 1), (T2, 1)], [(D1, 1)], [([0], to_mnef)]),
+        "term squared, itmd linear": ([(T2, 1), (T1, 2)], [(D1, 1)], [([0], to_mnef)]),
+        "term cubed, itmd linear": ([(T1, 3)], [(D1, 1)], [([0, 1], to_mnef)]),
+        "term cubed, itmd squared": ([(T1, 3), (T2, 2)], [(D1, 2)], [([0], to_mnef)]),
+        "both squared": ([(T1, 2)], [(D1, 2)], [([0], to_mnef)]),
+        "term linear, itmd squared": ([(T1, 1), (T2, 1)], [(D1, 2)], [([0], to_mnef)]),
+        "two itmd brackets": ([(T1, 2), (S1, 3), (T2, 1)], [(B("+a", "-i"), 2), (D1, 1)], [([0, 2], to_mnef)]),
+        "two variants": ([(T1, 2), (T2, 1)], [(D1, 1)], [([0], to_mnef), ([1], {"i": "k", "j": "l", "a": "c", "b": "d"}),
+                                                         ([2], {"i": "k", "j": "n", "a": "c", "b": "d"})]),
+        "same bracket for two itmd brackets": ([(T1, 2)], [(D1, 1), (B("+b", "+a", "-j", "-i"), 1)], [([0], to_mnef)]),
+        "no bracket of that length": ([(S1, 2)], [(D1, 1)], [([0], to_mnef)]),
+        "no bracket with that value": ([(T2, 2)], [(D1, 1)], [([0], to_mnef)]),
+        "invalid substitution": ([(T1, 2)], [(D1, 1)], [([0], {"$invalid": True}), ([1], to_mnef)]),
+        "itmd without denominator": ([(T1, 2)], [], [([0, 1], to_mnef), ([2], {})]),
+        "no eri variant": ([(T1, 2)], [(D1, 1)], None),
+    }
+
+
+def r11k(ctx):
+    """_compare_terms: every returned variant cancels, for each denominator bracket of the intermediate, the matching
+    bracket of the term exactly as often as the INTERMEDIATE holds it (so the factored term keeps the bracket to the
+    power term exponent - itmd exponent), every term bracket serves one itmd bracket only, and the data of the ERI
+    comparison are handed through; None when a bracket of the intermediate has no partner"""
+    rule = "R11k"
+    fn = ctx.model.fn(FI + "_compare_terms")
+    n = 0
+    for name, (tbr, ibr, eri_vs) in denominator_scenarios().items():
+        w = BracketWorld()
+        log = []
+
+        def eri_parts(sx, a, kw):
+            b = dict(zip(("term", "itmd_term", "term_data", "itmd_term_data"), a))
+            b.update(kw)
+            log.append((nm(b.get("term")), nm(b.get("itmd_term")), b.get("term_data"), b.get("itmd_term_data")))
+            if eri_vs is None:
+                return None
+            return [(list(e_i), sym(f"SUB_DICT{k}"), dict(sub), sym(f"FACTOR{k}")) for k, (e_i, sub) in enumerate(eri_vs)]
+
+        def args():
+            del log[:]
+            term = Obj(None, "TERM", denom_brackets=[w.bracket(f"term.bk{k}", key, ex) for k, (key, ex) in enumerate(tbr)],
+                       denom=Obj(None, "TERM.denom", sympy=Obj(None, "TERM.denom.sympy", is_number=not tbr)))
+            itmd = Obj(None, "ITMD", denom_brackets=[w.bracket(f"itmd.bk{k}", key, ex) for k, (key, ex) in enumerate(ibr)],
+                       denom=Obj(None, "ITMD.denom", sympy=Obj(None, "ITMD.denom.sympy", is_number=not ibr)))
+            return dict(term=term, itmd_term=itmd, term_data=sym("TERM_DATA"), itmd_term_data=sym("ITMD_DATA"))
+        hooks = {"_compare_eri_parts": eri_parts,
+                 "len": lambda sx_, a_, kw_: a_[0].attrs["_len"] if len(a_) == 1 and isinstance(a_[0], Obj) and "_len" in a_[0].attrs else NotImplemented}
+        sx = Symex(ctx.model, inline=lambda q: q.split(":")[-1] != "_compare_eri_parts", hooks=hooks, what=f"_compare_terms[{name}]",
+                   oracle=w.oracle, obj_identity=True)
+        outs = sx.run(fn, args)
+        what = f"_compare_terms[{name}]"
+        # specification
+        want = None
+        if eri_vs is not None:
+            want = []
+            for k, (e_i, sub) in enumerate(eri_vs):
+                used, denom_i, ok_v = set(), [], True
+                for key, m in ibr:
+                    if sub.get("$invalid"):
+                        ok_v = False
+                        break
+                    val = tuple(sorted(x[0] + sub.get(x[1:], x[1:]) for x in key))
+                    partner = next((j for j, (tk, tex) in enumerate(tbr) if j not in used and tuple(sorted(tk)) == val), None)
+                    if partner is None:
+                        ok_v = False
+                        break
+                    used.add(partner)
+                    denom_i += [partner] * m
+                if ok_v:
+                    want.append((k, sorted(denom_i)))
+            want = want or None
+        # a term bracket held to a LOWER power than the intermediate's: cancelling it anyway (negative remaining power) and
+        # refusing the match both preserve the value - either is accepted
+        alt = want
+        if eri_vs is not None and any(tex < m for tk, tex in tbr for key, m in ibr):
+            alt = []
+            for k, (e_i, sub) in enumerate(eri_vs):
+                used, denom_i, ok_v = set(), [], not sub.get("$invalid")
+                for key, m in ibr if ok_v else ():
+                    val = tuple(sorted(x[0] + sub.get(x[1:], x[1:]) for x in key))
+                    partner = next((j for j, (tk, tex) in enumerate(tbr) if j not in used and tuple(sorted(tk)) == val and tex >= m), None)
+                    if partner is None:
+                        ok_v = False
+                        break
+                    used.add(partner)
+                    denom_i += [partner] * m
+                if ok_v:
+                    alt.append((k, sorted(denom_i)))
+            alt = alt or None
+        n += 1
+        if len(outs) != 1 or outs[0].kind != "return":
+            ctx.bad(rule, fn, f"{what}: {outs[:2]}", key=f"terms shape {name}")
+            continue
+        got = outs[0].value
+        why = None
+        if alt != want and (got is None) == (alt is None) and (got is None or (isinstance(got, list) and len(got) == len(alt))):
+            want = alt
+        if want is None:
+            if got is not None:
+                why = f"returns {show(got)[:200]} although a denominator bracket of the intermediate has no partner in the term"
+        elif not isinstance(got, list) or len(got) != len(want):
+            why = f"returns {show(got)[:300]}, expected {len(want)} variant(s) with the brackets {[d for _, d in want]} to cancel"
+        else:
+            for v, (k, denom_i) in zip(got, want):
+                e_i, sub = eri_vs[k]
+                if not isinstance(v, dict) or sorted(v.get("denom_i", ["?"])) != denom_i:
+                    g = v.get("denom_i") if isinstance(v, dict) else v
+                    left = {j: tbr[j][1] - list(g).count(j) for j in set(g)} if isinstance(g, list) and all(isinstance(j, int) and j < len(tbr) for j in g) else "?"
+                    left_w = {j: tbr[j][1] - denom_i.count(j) for j in set(denom_i)}
+                    why = (f"variant {k} schedules the term brackets {g} for cancellation, expected {denom_i} (each matching bracket as often as "
+                           f"the intermediate holds it): the factored term keeps the brackets to the powers {left}, but term / intermediate "
+                           f"leaves {left_w} - a factor of the orbital-energy denominator is lost or gained")
+                    break
+                if v.get("eri_i") != list(e_i) or v.get("sub") != sym(f"SUB_DICT{k}") or v.get("factor") != sym(f"FACTOR{k}") or \
+                        v.get("sub_list") != dict(sub):
+                    why = f"variant {k} does not hand through the data of the ERI comparison: {show(v)[:300]}"
+                    break
+        ctx.check(rule, fn, why is None,
+                  f"{what}: matching brackets cancelled as often as the intermediate holds them" if want else f"{what}: no variant",
+                  f"{what} (term brackets {[(''.join(k_), e_) for k_, e_ in tbr]}, itmd brackets {[(''.join(k_), e_) for k_, e_ in ibr]}): {why}",
+                  key=f"terms {name}")
+        ctx.check(rule, fn, log == [("TERM", "ITMD", sym("TERM_DATA"), sym("ITMD_DATA"))], f"{what}: ERI parts compared once with the given data",
+                  f"{what}: _compare_eri_parts called as {log}", key=f"terms eri {name}")
+    ctx.floor(rule, "denominator scenarios of _compare_terms", n, 12)
+
+
 def run(ctx):
     if ctx.want("R11h"):
         r11h(ctx)
@@ -2367,6 +2554,8 @@ def run(ctx):
         r11i(ctx)
     if ctx.want("R11j"):
         r11j(ctx)
+    if ctx.want("R11k"):
+        r11k(ctx)
     if ctx.want("R13h"):
         c13.r13h(ctx)
     if ctx.want("R13e"):
